@@ -1,5 +1,7 @@
 package sim
 
+import "time"
+
 // History records invoke/return events of API operations with a global event
 // sequence number.  It is written from the goroutines that call the system under
 // test, so it uses only a preallocated array from norace functions: no lock, no
@@ -12,16 +14,20 @@ type History struct {
 	seq int64
 }
 
+// histEpoch is a fixed instant before every bubble's start (the fake clock starts at 2000-01-01 UTC).
+var histEpoch = time.Date(1999, 1, 1, 0, 0, 0, 0, time.UTC)
+
 // HistEv is one operation.
 type HistEv struct {
-	G    int
-	Op   int
-	Arg  int64
-	Call int64
-	Ret  int64 // 0 = never returned
-	Out  int64
-	Err  int
-	At   int64 // simulated time of the invocation (ns since run start), filled by the caller if wanted
+	G     int
+	Op    int
+	Arg   int64
+	Call  int64
+	Ret   int64 // 0 = never returned
+	Out   int64
+	Err   int
+	At    int64 // simulated time of the invocation (ns since the first invocation's bubble epoch)
+	RetAt int64 // simulated time of the return
 }
 
 // Invoke records the invocation of op by goroutine g and returns the event id.
@@ -34,7 +40,7 @@ func (h *History) Invoke(g, op int, arg int64) int {
 	h.seq++
 	id := h.n
 	h.n++
-	h.ev[id] = HistEv{G: g, Op: op, Arg: arg, Call: h.seq}
+	h.ev[id] = HistEv{G: g, Op: op, Arg: arg, Call: h.seq, At: int64(time.Since(histEpoch))}
 	return id
 }
 
@@ -47,6 +53,7 @@ func (h *History) Return(id int, out int64, errClass int) {
 	}
 	h.seq++
 	h.ev[id].Ret = h.seq
+	h.ev[id].RetAt = int64(time.Since(histEpoch))
 	h.ev[id].Out = out
 	h.ev[id].Err = errClass
 }
